@@ -20,6 +20,8 @@ def dirichlet_cases(tier, seed):
                 [1.0] * 64, [0.3, 0.2, 0.5, 1.0, 2.0, 7.0], [0.09, 0.08, 0.07, 0.06], [5.0, 0.5], [hi, 1.0, lo], [2.0, 0.11, 0.5], [0.2, 0.2, 0.2]]
         # the component samplers' own switch (Gamma shape = 1: Exp / Marsaglia-Tsang / boosted small-shape) from both sides
         one_up, one_dn = C.nxt(1.0, ty, 1), C.nxt(1.0, ty, -1)
+        # a large first entry with a small last one: the last component lives far below the resolution of 1 - x0
+        vecs += [[hi, 0.11], [3.0, 0.2], [50.0, 0.15, 0.3]]
         vecs += [[one_up, 2.0], [one_dn, 0.5], [1.002, 60.0], [1.004] * 3, [1.0001, 1.0001], [0.999, 0.999, 3.0], [1.01, 0.5], [1.02, 1.0, 0.98, 30.0]]
         for _ in range(60 if th else 6):
             n = 2 + rnd.below(24 if not th else 63)
@@ -137,7 +139,7 @@ def run(tier, seed):
             checked_seen.add(e['key'])
             for kind in ('wrong_length', 'nan', 'outside', 'sum_not_one'):
                 if e[kind]:
-                    ver.add({'ty': e['key'].split('<')[1][:3], 'kind': kind, 'repr': e['repr'], 'alpha_min': min(C.dec(x) for x in next(c['p'] for c in cs if c['id'] == e['key']))},
+                    ver.add({'ty': e['key'].split('<')[1][:3], 'kind': kind, 'repr': e['repr'], 'alpha_min': min(C.dec(x) for x in next(c['p'] for c in cs if c['id'] == e['key'])), 'alpha_max': max(C.dec(x) for x in next(c['p'] for c in cs if c['id'] == e['key']))},
                             {'case': e['key'], 'profile': 'checked', 'count': e[kind], 'examples': e['viol'][:3]})
         elif e.get('ev') == 'c11_panic':
             ver.add({'kind': 'panic', 'profile': 'checked', 'msg': e['msg'][:100]}, {'case': e['key'], 'msg': e['msg'], 'profile': 'checked'})
@@ -163,7 +165,7 @@ def run(tier, seed):
         small = min(c['pv'])
         for kind in ('wrong_length', 'nan', 'outside', 'sum_not_one'):
             if r[kind]:
-                ver.add({'ty': c['ty'], 'kind': kind, 'repr': r['repr'], 'alpha_min': small}, {'case': c['id'], 'count': r[kind], 'of': r['samples'], 'examples': r['viol'][:3]})
+                ver.add({'ty': c['ty'], 'kind': kind, 'repr': r['repr'], 'alpha_min': small, 'alpha_max': max(c['pv'])}, {'case': c['id'], 'count': r[kind], 'of': r['samples'], 'examples': r['viol'][:3]})
         if r['pair_bad']:
             ver.add({'ty': c['ty'], 'kind': 'sample_to_slice_differs'}, {'case': c['id'], 'bad': r['pair_bad'], 'pairs': r['pairs']})
         if r['sample_len'] != k:
@@ -215,7 +217,7 @@ def run(tier, seed):
                 for region, (f, cnt2, hi_t) in best.items():
                     # the 1 - b cancellation of the FromBeta path cannot touch the first component's marginal (x_0 = b_0)
                     exposed = not (kind == 'marg' and i == 0)
-                    ver.add({'ty': c['ty'], 'kind': 'law', 'statistic': kind, 'repr': rr['repr'], 'region': region, 'alpha_min': min(c['pv']), 'after_first_stick': exposed},
+                    ver.add({'ty': c['ty'], 'kind': 'law', 'statistic': kind, 'repr': rr['repr'], 'region': region, 'alpha_min': min(c['pv']), 'alpha_max': max(c['pv']), 'after_first_stick': exposed},
                             {'case': c['id'], 'statistic': kind, 'i': i, 'j': j, 'reference': bid, 'flag': f, 'threshold': hi_t, 'stage2_count': cnt2, 'n2': n_ok})
     rc = ver.finish()
     cov = {
